@@ -382,6 +382,7 @@ func handleStream(svr interface{}, serviceName string, desc *grpc.StreamDesc, st
 		} else {
 			err = desc.Handler(svr, str)
 		}
+		verifPoint("http.srv.tail")
 		if str.writeFailed {
 			// nothing else we can do
 			return
@@ -519,6 +520,7 @@ func (s *serverStream) Context() context.Context {
 }
 
 func (s *serverStream) SendMsg(m interface{}) error {
+	verifPoint("http.srv.send")
 	s.wmu.Lock()
 	defer s.wmu.Unlock()
 
@@ -534,10 +536,12 @@ func (s *serverStream) SendMsg(m interface{}) error {
 	if err != nil {
 		s.writeFailed = true
 	}
+	verifPoint("http.srv.sendret")
 	return err
 }
 
 func (s *serverStream) RecvMsg(m interface{}) error {
+	verifPoint("http.srv.recv")
 	s.rmu.Lock()
 	defer s.rmu.Unlock()
 
